@@ -48,6 +48,8 @@ def run(model, res, tier):
     H.safely(res, 'R2', 'r2', _r2, ctx)
     H.safely(res, 'R3', 'r3', _r3, ctx)
     H.safely(res, 'R4', 'r4', _r4, ctx)
+    res.rule('R12', 'the grammar hands the value a reference callback answers on unchanged, up to the expression, for every kind of value')
+    H.safely(res, 'R12', 'reference values', reference_value_rule, model, res, c, 'R12', ('call_cell_value', 'call_range_value'))
     H.safely(res, 'R7', 'r7', _r7, ctx)
     keys = sorted(set(cbs.values()))
     region = c.cg.reachable(keys) - set(c.cg.registry_keys)
@@ -66,6 +68,121 @@ def run(model, res, tier):
 
 
 # ---------------------------------------------------------------------------------------------------
+
+def _grammar_object(interp, model, c, g):
+    """The grammar parser object as the public constructor builds it (attributes such as a name-reading strategy included); the rules
+    then put their own recording callbacks on it.  A constructor the interpreter cannot follow leaves a bare object."""
+    try:
+        saved = (list(interp.state.events), list(interp.state.imprecise))
+        _p, gobj = H.host_objects(interp, model, c)
+        interp.state.events[:] = saved[0]
+        return gobj
+    except (Unmodelled, AnalysisError):
+        return Obj(ClassV(g.gm, g.gcls), {})
+
+
+VALUE_KINDS = ('int', 'float', 'bool', 'str', 'none', 'datetime', 'list', 'err', 'zero', 'false', 'empty-text')
+
+
+def _value_of_kind(kind):
+    if kind == 'zero':
+        return Const(0)
+    if kind == 'false':
+        return Const(False)
+    if kind == 'empty-text':
+        return Const('')
+    if kind == 'list':
+        return ListV([Sym('int', 'V0'), Sym('datetime', 'V1')])
+    return H.mk(kind, 'V')
+
+
+def _same_value(got, v):
+    if isinstance(v, Const):
+        return isinstance(got, Const) and type(got.value) is type(v.value) and got.value == v.value
+    if isinstance(v, ListV):
+        # an equal array (same items in the same order) is the same value
+        return isinstance(got, ListV) and got.kind == v.kind and len(got.items) == len(v.items) and \
+            all(_same_value(a, b) for a, b in zip(got.items, v.items))
+    return got is v
+
+
+def reference_value_rule(model, res, c, R, which=('call_cell_value', 'call_range_value', 'call_variable')):
+    """What the callback of a reference answers is the value of the reference: the grammar action that invokes the callback, and every
+    unit production between it and 'expression', hands the very value on - whatever kind of value it is (a date-time with a time of
+    day, 0, FALSE, empty text, an array, an error)."""
+    from .c09 import callback_attrs
+    g = c.grammar
+    role_attr = callback_attrs(c)
+    attr_of = dict((cb, role_attr.get(cb, cb)) for cb in EVENTS)
+    want = []
+    for p in g.productions:
+        syms = p.syms
+        if p.name == 'cell' and len(syms) == 1 and 'call_cell_value' in which:
+            want.append((p, 'call_cell_value'))
+        elif p.name == 'cell' and len(syms) == 3 and syms[1] == 'COLON' and 'call_range_value' in which:
+            want.append((p, 'call_range_value'))
+        elif syms == ['variable_sequence'] and p.name != 'variable_sequence' and 'call_variable' in which:
+            want.append((p, 'call_variable'))
+    # unit productions on the way up to 'expression'
+    heads = set(p.name for p, _ in want)
+    units = []
+    frontier = set(h_ for h_ in heads if h_ != 'expression')
+    for _ in range(4):
+        for p in g.productions:
+            if len(p.syms) == 1 and p.syms[0] in frontier and p.name not in heads and (p, None) not in units:
+                units.append((p, None))
+                if p.name != 'expression':
+                    frontier.add(p.name)
+    n = 0
+    for p, cbname in want + units:
+        if p.funcname not in g.action_funcs:
+            continue
+        m, f = g.action_funcs[p.funcname]
+        fv = Func(m, f)
+        for kind in VALUE_KINDS:
+            box = {}
+
+            def call(interp, st, p=p, kind=kind, cbname=cbname):
+                v = _value_of_kind(kind)
+                box['v'] = v
+                gobj = _grammar_object(interp, model, c, g)
+                for name in EVENTS:
+                    def rec(interp2, args, kwargs, name=name):
+                        return v
+                    interp.extern['hx:rv:' + name] = rec
+                    gobj.attrs[attr_of[name]] = Builtin('hx:rv:' + name)
+                items = [Const(None)]
+                for i, s_ in enumerate(p.syms):
+                    if cbname is None:
+                        items.append(v)
+                    elif s_ == 'variable_sequence':
+                        items.append(ListV([Sym('str', 'S%d_0' % (i + 1))]))
+                    else:
+                        items.append(Sym('str', 'S%d' % (i + 1)))
+                pv = ListV(items)
+                interp.call(fv, [gobj, pv])
+                return pv.items[0]
+            try:
+                outs = Interp(model, opaque=H.date_opaque(model)).run(call)
+            except Unmodelled as e:
+                res.ob(R, p.funcname, {'production': repr(p), 'value': kind}, True, 'undecided: %s' % e)
+                continue
+            v = box.get('v')
+            outs = [o for o in outs if not o.imprecise]
+            if not outs:
+                res.ob(R, p.funcname, {'production': repr(p), 'value': kind}, True, 'undecided: imprecise')
+                continue
+            n += 1
+            bad = [o for o in outs if not (o.kind == 'return' and _same_value(o.value, v))]
+            res.ob(R, p.funcname, {'production': repr(p), 'value': kind}, not bad, H.describe(outs)[:2])
+            if bad:
+                res.violation(R, 'grammar:%s:reference-value:%s' % (p.funcname, kind), m.where(f),
+                              'reducing "%s" with %s must yield that very value; got %s - the value of a reference is the value supplied '
+                              'for it, unchanged' % (p, 'the callback answering a value of kind %s' % kind if cbname else
+                                                     'a reference whose value is of kind %s' % kind, '; '.join(H.describe(bad)[:2])),
+                              case={'production': repr(p), 'value': kind}, func=p.funcname)
+    res.soft_floor('reference actions run on every kind of value', n, 100)
+
 
 def supplied_values_rules(model, tmp, c):
     """R1/R5/R6 as a unit for the properties about values (borrowed): what a listener hands to the setter - 0, FALSE and empty text
@@ -343,7 +460,7 @@ def _r2(ctx):
         role_attr = callback_attrs(c)
 
         def call(interp, st, p=p):
-            gobj = Obj(ClassV(g.gm, g.gcls), {})
+            gobj = _grammar_object(interp, model, c, g)
             for name in EVENTS:
                 def rec(interp2, args, kwargs, name=name):
                     interp2.state.events.append((name, list(args)))
